@@ -29,6 +29,7 @@ STATUSES = ['WAITING', 'PENDING', 'DONE', 'FAILED', 'SKIPPED']
 OUTCOMES = ['SUCCESS', 'FAILURE', 'MISSING', 'NOT_A_TEST']
 KINDS = ['equal', 'approx', 'student', 'bonf', 'holm', 'chi2', 'meta', 'tasks', 'tests', 'bylabels', 'failed']
 REPRESENTERS = ['Table', 'FullTable', 'Plot', 'FullPlot', 'Full', 'Empty']
+DTYPES = ['>f8', '>f8', '>f4', 'f4', 'f2', 'longdouble', '>i8', 'i8', 'i4', '>i4']
 SPECIALS = [float('nan'), float('inf'), float('-inf'), -0.0, 5e-324, 1e308, -1e308, 0.0]
 
 
@@ -55,7 +56,10 @@ def snap(obj, memo=None):
     if isinstance(obj, np.ndarray):
         if obj.dtype == object:
             return ('ndo', obj.shape, tuple(snap(x, memo) for x in obj.flat))
-        return ('nd', obj.dtype.str, obj.shape, obj.tobytes(), bool(obj.flags.writeable))
+        # raw buffer (in the array's own dtype and byte order) AND logical values (native byte order)
+        native = obj.astype(obj.dtype.newbyteorder('='), copy=False) if obj.dtype.byteorder in '<>' else obj
+        return ('nd', obj.dtype.str, obj.shape, obj.tobytes(), np.ascontiguousarray(native).tobytes(),
+                bool(obj.flags.writeable))
     if isinstance(obj, np.generic):
         return ('ng', obj.dtype.str, obj.tobytes())
     key = id(obj)
@@ -113,14 +117,30 @@ def _layout(arr, layout):
     return arr
 
 
-def _dataset(shape, vals, errs, name, what='', layout='C'):
+def _cast(arr, dtype):
+    '''the numbers in another dtype / byte order ('>f8', '>f4', 'f4', 'f2', 'longdouble', '>i8', 'i8', 'i4')'''
+    if dtype in (None, 'f8'):
+        return arr
+    dtp = np.dtype(dtype)
+    with np.errstate(all='ignore'):
+        if dtp.kind in 'iu':
+            arr = np.nan_to_num(np.rint(arr), nan=0.0, posinf=1e9, neginf=-1e9)
+        return arr.astype(dtp)
+
+
+def _dataset(shape, vals, errs, name, what='', layout='C', dtype=None):
     from valjean.eponine.dataset import Dataset
     if not shape:
-        return Dataset(np.float64(vals[0]), np.float64(errs[0]), name=name, what=what)
-    bins = OrderedDict((f'x{k}', _layout(np.arange(n + 1, dtype=float) * (k + 1), layout if layout in 'SR' else 'C'))
+        if dtype in (None, 'f8'):
+            return Dataset(np.float64(vals[0]), np.float64(errs[0]), name=name, what=what)
+        return Dataset(_cast(np.array(vals[0], dtype=float), dtype)[()], _cast(np.array(errs[0], dtype=float), dtype)[()],
+                       name=name, what=what)
+    bdt = dtype if dtype in ('>f8', 'f4', '>f4') else None
+    bins = OrderedDict((f'x{k}', _layout(_cast(np.arange(n + 1, dtype=float) * (k + 1), bdt),
+                                         layout if layout in 'SR' else 'C'))
                        for k, n in enumerate(shape))
-    return Dataset(_layout(np.array(vals, dtype=float).reshape(shape), layout),
-                   _layout(np.array(errs, dtype=float).reshape(shape), layout),
+    return Dataset(_layout(_cast(np.array(vals, dtype=float).reshape(shape), dtype), layout),
+                   _layout(_cast(np.array(errs, dtype=float).reshape(shape), dtype), layout),
                    bins=bins, name=name, what=what)
 
 
@@ -135,7 +155,8 @@ def build_test(case):
         dnames = data.get('names') or [f'ds{k}' for k in range(len(data['vals']))]
         whats = data.get('whats') or [''] * len(dnames)
         layouts = data.get('layouts') or ['C'] * len(dnames)
-        dsets = [_dataset(shape, v, e, dnames[k], whats[k], layouts[k])
+        dtypes = data.get('dtypes') or [None] * len(dnames)
+        dsets = [_dataset(shape, v, e, dnames[k], whats[k], layouts[k], dtypes[k])
                  for k, (v, e) in enumerate(zip(data['vals'], data['errs']))]
         labels = data.get('labels')
         tname = data.get('tname')
@@ -277,6 +298,15 @@ def gen_data(rng, kind):
             [rng.choice(['', 'flux', 'dose']) for _ in range(nds)]
         data['tname'] = rng.choice([None, 'test', 'test', 'same', 'T1'])
         data['descr'] = rng.choice(['', '', 'a description', 'same'])
+        # dtypes / byte orders of the arrays: native float64 mostly; else non-native ('>f8', '>f4', '>i8'),
+        # narrower / wider floats, integers -- uniform or mixed per test
+        dtr = rng.random()
+        if dtr < 0.6:
+            data['dtypes'] = [None] * nds
+        elif dtr < 0.85:
+            data['dtypes'] = [rng.choice(DTYPES)] * nds
+        else:
+            data['dtypes'] = [rng.choice(DTYPES + [None]) for _ in range(nds)]
         # memory layouts of the arrays: C, Fortran, transposed view, strided view, negative stride
         lay = rng.random()
         if lay < 0.6:
@@ -460,9 +490,10 @@ def run_impl(ctx, case, steps):
     prev_after = initial
     for n, op in enumerate(case['ops']):
         before = snap(result)
-        if before != prev_after:      # the verdict was read in between, nothing else
-            ctx.oracle_failure(f'reading the verdict before operation {n} changes the {kind} result: '
-                               f'{first_diff(prev_after, before)} :: {case}', case, key='state-changed-by-bool')
+        if before != prev_after:      # only the verdict and the fingerprint were read in between
+            ctx.oracle_failure(f'reading the verdict and fingerprint(test) before operation {n} changes the {kind} '
+                               f'result: {first_diff(prev_after, before)} :: {case}', case,
+                               key='state-changed-by-read')
         ctx.count('op_' + op[0])
         try:
             if op[0] == 'evaluate':
